@@ -626,20 +626,21 @@ def spawn_layer_in_subprocess(result, script_parts, options, features,
                                      for line in errlines[-10:]))
             output.error_with_banner(errmsg)
 
-        while nfail > 0:
-            nfail -= 1
-            # Doing erriter.next().strip() confuses the 2to3 fixer, so
-            # we need to do it on a separate line. Also, in python 3 this
-            # returns bytes, so we decode it.
-            next_fail = next(erriter)
-            failures.append((next_fail.strip().decode(), None))
-        while nerr > 0:
-            nerr -= 1
-            # Doing erriter.next().strip() confuses the 2to3 fixer, so
-            # we need to do it on a separate line. Also, in python 3 this
-            # returns bytes, so we decode it.
-            next_err = next(erriter)
-            errors.append((next_err.strip().decode(), None))
+        # The report is complete only if every announced name arrived: the
+        # child may have died (or been killed) while it was writing it.
+        names = list(erriter)
+        if len(names) < nfail + nerr or (
+                len(names) == nfail + nerr and names
+                and not stderr_buf[0].endswith((b'\n', b'\r'))):
+            errors.append(("subprocess for %s" % layer_name, None))
+            output.error_with_banner(
+                "Incomplete report from subprocess for %s!" % layer_name)
+        else:
+            # In python 3 these are bytes, so we decode them.
+            for next_fail in names[:nfail]:
+                failures.append((next_fail.strip().decode(), None))
+            for next_err in names[nfail:nfail + nerr]:
+                errors.append((next_err.strip().decode(), None))
 
     finally:
         result.done = True
